@@ -166,17 +166,6 @@ def install_stubs(reg):
 # model objects
 
 
-def point_like_coords(g):
-    g.fields["coords"] = CoordsOf(g)
-    return g
-
-
-def patch_point_results(I):
-    """Point / MultiPoint results of set operations expose their coordinates as an opaque `CoordsOf`."""
-    orig = MS.make_geom
-    return orig
-
-
 def mk_polygonal(I, tag, z=None, cls="PolygonalRegion", orientation=None, kind="MultiPolygon", polygons=None):
     eng = I.eng
     r = PObj(RC(cls), tag=tag)
@@ -187,6 +176,11 @@ def mk_polygonal(I, tag, z=None, cls="PolygonalRegion", orientation=None, kind="
     g = polygons if polygons is not None else MS.make_geom(I, kind, empty=False, tag=tag + ".polygons")
     r.fields.update(_polygons=g, z=z, orientation=orientation, name=None, _points=(), _polygon=g)
     return r
+
+
+def with_bounds(I, g):
+    g.fields["bounds"] = MS.g_bounds(I, g)
+    return g
 
 
 def mk_footprint(I, tag):
@@ -203,27 +197,56 @@ def mk_polyline(I, tag, orientation=None):
     return r
 
 
-def mk_abstract(I, tag, log, selfobj=None, orientation=None):
+def mk_abstract(I, tag, log, orientation=None, rich=False, nonempty=True):
     """A region of an unknown class.  Its operations are *assumed* to satisfy this property's contract (the
     dispatch is verified assume-guarantee: every override is itself under contract): they are logged and return a
-    token whose point set is the set operation."""
+    token whose point set is the set operation.  With rich=True `intersect` returns one of: a fixed non-empty
+    region, `nowhere` (then the operands share no point), or a generic IntersectionRegion.
+    Library regions other than `nowhere` are non-empty (class invariant of the constructors): a witness exists."""
+    eng = I.eng
     o = PObj("AbstractRegion", tag=tag)
     init_samplable(o)
     pred = z3.Function(f"mem3!{tag}", _R, _R, _R, z3.BoolSort())
     o.fields["_mem3"] = lambda p: SV(pred(*[toz3(c, want_real=True) for c in p]))
     o.fields["orientation"] = orientation
     o.fields["name"] = tag
+    if nonempty:
+        w = tuple(eng.fresh_real(f"{tag}.witness.{c}") for c in "xyz")
+        eng.assume(o.fields["_mem3"](w))
+        o.fields["_witness3"] = w
 
     def op(name):
         def call(*a, **k):
-            log.append((name, o, a, k))
+            entry = dict(op=name, target=o, args=a, kwargs=k)
+            log.append((name, o, a, k, entry))
             arg = a[0] if a else None
             if name == "intersects":
-                return I.eng.fresh_bool(f"{tag}.intersects")
+                r = eng.fresh_bool(f"{tag}.intersects")
+                entry["result"] = r
+                return r
+            if name == "intersect" and rich:
+                form = eng.choose(3, "form of the delegated intersection")
+                entry["form"] = form
+                if form == 1:
+                    e = PObj(RC("EmptyRegion"), tag="nowhere")
+                    init_samplable(e)
+                    e.fields.update(name="nowhere", orientation=None)
+                    entry["disjoint"] = (o, arg)
+                    return e
+                if form == 2:
+                    g = PObj(RC("IntersectionRegion"), tag="generic-intersection")
+                    init_samplable(g)
+                    g.fields.update(regions=(o, arg), orientation=None, name=None, sampler=None)
+                    return g
             t = PObj("RegionToken", tag=f"{tag}.{name}()")
+            init_samplable(t)
             t.fields["_op"] = (name, o, arg)
             if name == "intersect":
                 t.fields["_mem3"] = lambda p: sv_and(mem3(I, o, p), mem3(I, arg, p))
+                if rich:
+                    w = tuple(eng.fresh_real(f"shared.{c}") for c in "xyz")
+                    eng.assume(t.fields["_mem3"](w))
+                    entry["shared"] = w
             elif name == "union":
                 t.fields["_mem3"] = lambda p: sv_or(mem3(I, o, p), mem3(I, arg, p))
             else:
@@ -236,6 +259,13 @@ def mk_abstract(I, tag, log, selfobj=None, orientation=None):
     for n in ("intersect", "union", "difference", "intersects"):
         o.fields[n] = op(n)
     return o
+
+
+def mk_special(I, cls):
+    r = PObj(RC(cls), tag={"AllRegion": "everywhere", "EmptyRegion": "nowhere"}[cls])
+    init_samplable(r)
+    r.fields.update(name=r.tag, orientation=None)
+    return r
 
 
 def mem3(I, r, p):
@@ -317,6 +347,12 @@ def register(reg):
     install_stubs(reg)
     _patch_make_geom()
     register_polygonal_setops(reg)
+    register_membership_distance(reg)
+    register_project_vector(reg)
+    register_dispatch(reg)
+    register_planar_ops(reg)
+    register_containment(reg)
+    register_aabb(reg)
 
 
 def _patch_make_geom():
@@ -336,46 +372,57 @@ def _patch_make_geom():
 
 
 def register_polygonal_setops(reg):
+    """PolygonalRegion.intersect / union / difference: one contract per operation; the class of `other`
+    (polygonal at any height / footprint / polyline / unknown class) is chosen inside."""
     name = "regions.PolygonalRegion"
 
-    def make_setup(op, kind):
+    def make_setup(op):
         def setup(I, env):
             eng = I.eng
             log = []
+            kind = OTHER_KINDS[eng.choose(len(OTHER_KINDS), "class of other")]
             A = mk_polygonal(I, "self")
             B = mk_other(I, kind, log)
-            env.vars.update(self=A, other=B, _log=log)
+            env.vars.update(self=A, other=B, _log=log, _kind=kind)
+            eng.input_syms.append(("kind", C.Const(None), kind))
             if op in ("intersect", "union"):
-                env.vars["triedReversed"] = eng.choose(2, "triedReversed") == 1
+                tr = eng.choose(2, "triedReversed") == 1
+                env.vars["triedReversed"] = tr
+                eng.input_syms.append(("triedReversed", C.Const(None), tr))
             p = probe(I)
             env.vars["_p"] = p
             eng.assume(clear_of_boundaries(I, p, A, B))
+            if kind == "polyline" and op != "intersect":
+                # adding / removing a 1-dimensional set to / from a 2-dimensional one: every point of the line is a boundary point
+                eng.assume(sv_not(MS.gmem(B.fields["lineString"], p[0], p[1])))
 
         return setup
 
-    def make_post(op, kind):
-        oname = f"{name}.{op}[{kind}]"
-
+    def make_post(op):
         def post(I, env, outcome):
             eng = I.eng
             if outcome[0] != "return":
                 return
             res = outcome[1]
-            A, B, p, log = env.vars["self"], env.vars["other"], env.vars["_p"], env.vars["_log"]
+            A, B, p, log, kind = env.vars["self"], env.vars["other"], env.vars["_p"], env.vars["_log"], env.vars["_kind"]
+            oname = f"{name}.{op}"
             okreg = isinstance(res, PObj)
             eng.check(f"{oname}#ensures.returns_a_region", okreg)
             if not okreg:
                 return
             a, b = mem3(I, A, p), mem3(I, B, p)
             want = {"intersect": sv_and(a, b), "union": sv_or(a, b), "difference": sv_and(a, sv_not(b))}[op]
+            height_ok = True
             if is_a(I, res, "PolygonalRegion"):
-                eng.check(f"{oname}#ensures.result_keeps_height_z", compare("==", res.fields["z"], A.fields["z"]))
-            eng.check(f"{oname}#ensures.set_semantics", iff(mem3(I, res, p), want))
+                height_ok = compare("==", res.fields["z"], A.fields["z"])
+                eng.check(f"{oname}#ensures.result_keeps_height_z", height_ok)
+            # (given the right height) membership in the result is the set operation of the operands' membership
+            eng.check(f"{oname}#ensures.set_semantics[{kind}]", sv_implies(height_ok, iff(mem3(I, res, p), want)))
             if kind == "generic":
                 tr = env.vars.get("triedReversed", None)
                 calls = [c for c in log if c[0] == op]
                 if op == "difference":
-                    eng.check(f"{oname}#ensures.generic_fallback_is_DifferenceRegion", is_a(I, res, "DifferenceRegion") and res.fields["regionA"] is A and res.fields["regionB"] is B and not calls)
+                    eng.check(f"{oname}#dispatch.generic_fallback_is_DifferenceRegion", is_a(I, res, "DifferenceRegion") and res.fields["regionA"] is A and res.fields["regionB"] is B and not calls)
                 elif tr:
                     cls_ = {"intersect": "IntersectionRegion", "union": "UnionRegion"}[op]
                     eng.check(f"{oname}#dispatch.no_second_reversal", not calls)
@@ -387,22 +434,20 @@ def register_polygonal_setops(reg):
         return post
 
     for op in ("intersect", "union", "difference"):
-        for kind in OTHER_KINDS:
-            params = dict(self=C.Const(None), other=C.Const(None))
-            if op != "difference":
-                params["triedReversed"] = C.Const(False)
-            reg.add(
-                C.Contract(
-                    f"{RG}:PolygonalRegion.{op}",
-                    params=params,
-                    setup=make_setup(op, kind),
-                    post=make_post(op, kind),
-                    inline_all=True,
-                    replay=make_replay_setop(op, kind),
-                    properties=("C16",),
-                ),
-                key=f"{RG}:PolygonalRegion.{op}[{kind}]",
+        params = dict(self=C.Const(None), other=C.Const(None))
+        if op != "difference":
+            params["triedReversed"] = C.Const(False)
+        reg.add(
+            C.Contract(
+                f"{RG}:PolygonalRegion.{op}",
+                params=params,
+                setup=make_setup(op),
+                post=make_post(op),
+                inline_all=True,
+                replay=make_replay_setop(op),
+                properties=("C16",),
             )
+        )
 
 
 def _real_regions():
@@ -428,8 +473,9 @@ def _member(R, region, pt):
     return region.containsPoint(pt)
 
 
-def make_replay_setop(op, kind):
+def make_replay_setop(op):
     def replay(inputs, clause):
+        kind = inputs.get("kind")
         R, Vector = _real_regions()
         za = float(inputs.get("self.z", 0.0))
         zb = float(inputs.get("other.z", za))
@@ -448,7 +494,7 @@ def make_replay_setop(op, kind):
             if isinstance(res, R.PolygonalRegion) and abs(res.z - za) > 1e-9:
                 return f"PolygonalRegion(z={za}).{op}({type(B).__name__}{'' if kind != 'polygonal' else f'(z={zb})'}) returned a PolygonalRegion at z={res.z}"
             return None
-        zs = sorted({za, zb, 0.0})
+        zs = sorted({za, zb, 0.0, za + 1.5})
         for x, y in ((3, 3), (1, 1), (5, 5), (1, 3), (5, 3), (3.5, 3), (-0.5, 3)):
             for z in zs:
                 pt = Vector(x, y, z)
@@ -462,3 +508,1362 @@ def make_replay_setop(op, kind):
         return None
 
     return replay
+
+
+# ===================================================================================================
+# membership and distance
+
+
+def mk_point(I, name="point"):
+    p = probe(I, name)
+    return make_vector(*p), p
+
+
+def mk_circular(I, tag="self"):
+    eng = I.eng
+    cx, cy, cz = (eng.fresh_real(f"{tag}.center.{c}") for c in "xyz")
+    rad = eng.fresh_real(f"{tag}.radius")
+    eng.assume(compare(">", rad, 0))
+    eng.input_syms.append((f"{tag}.center", C.TupleOf(C.Real(), C.Real(), C.Real()), (cx, cy, cz)))
+    eng.input_syms.append((f"{tag}.radius", C.Real(), rad))
+    g = MS.disc_geom(I, cx, cy, rad, tag=tag + ".polygons")
+    r = mk_polygonal(I, tag, z=cz, cls="CircularRegion", polygons=g)
+    center = make_vector(cx, cy, cz)
+    r.fields.update(center=center, radius=rad, resolution=32, circumcircle=(center, rad))
+    return r
+
+
+def sq(x):
+    return arith("*", x, x)
+
+
+def dist3sq(p, q):
+    return arith("+", arith("+", sq(arith("-", p[0], q[0])), sq(arith("-", p[1], q[1]))), sq(arith("-", p[2], q[2])))
+
+
+def check_distance(I, oname, res, R, geom, height, p):
+    """`The distance from a region to a point is zero exactly on its members and otherwise the Euclidean distance to the
+    nearest member`, for a planar region = geometry `geom` at height `height` (None: at every height)."""
+    eng = I.eng
+    okn = isinstance(res, (int, float, SV)) and not isinstance(res, bool)
+    eng.check(f"{oname}#ensures.returns_a_number", okn)
+    if not okn:
+        return
+    eng.check(f"{oname}#ensures.non_negative", compare(">=", res, 0))
+    eng.check(f"{oname}#ensures.zero_exactly_on_members", iff(compare("==", res, 0), mem3(I, R, p)))
+    # no member is nearer ...
+    qx, qy = eng.fresh_real("member.x"), eng.fresh_real("member.y")
+    eng.input_syms.append(("member", C.TupleOf(C.Real(), C.Real()), (qx, qy)))
+    d2 = MS.dist_at(I, geom, p[0], p[1])
+    MS.world(I).add_point(qx, qy)
+    q = (qx, qy, p[2] if height is None else height)
+    eng.check(f"{oname}#ensures.no_member_is_nearer", sv_implies(MS.gmem(geom, qx, qy), compare("<=", sq(res), dist3sq(p, q))))
+    # ... and the distance is attained: it is the Euclidean distance to the nearest member
+    n = MS.nearest_witness(geom, p[0], p[1])
+    nq = (n[0], n[1], p[2] if height is None else height)
+    eng.check(f"{oname}#ensures.is_the_distance_to_the_nearest_member", sv_and(mem3(I, R, nq), compare("==", sq(res), dist3sq(p, nq))))
+
+
+def register_membership_distance(reg):
+    # ---------------------------------------------------------------- PolygonalRegion
+    def setup_poly(I, env):
+        A = mk_polygonal(I, "self")
+        v, p = mk_point(I)
+        env.vars.update(self=A, point=v, _p=p)
+
+    def post_member(oname, clause="member_iff_in_polygon_at_height_z"):
+        def post(I, env, outcome):
+            if outcome[0] != "return":
+                return
+            res = outcome[1]
+            ok = isinstance(res, (bool, SV))
+            I.eng.check(f"{oname}#ensures.returns_a_bool", ok)
+            if ok:
+                I.eng.check(f"{oname}#ensures.{clause}", iff(res, mem3(I, env.vars["self"], env.vars["_p"])))
+
+        return post
+
+    def replay_poly_contains(method):
+        def replay(inputs, clause):
+            R, Vector = _real_regions()
+            z = float(inputs.get("self.z", 0.0))
+            pz = float(inputs["point"][2])
+            A = R.PolygonalRegion([(0, 0), (4, 0), (4, 4), (0, 4)], z=z)
+            for xy in ((1, 1), (5, 5)):
+                pt = Vector(xy[0], xy[1], pz)
+                got = bool(getattr(A, method)(pt))
+                want = (0 <= xy[0] <= 4 and 0 <= xy[1] <= 4) and pz == z
+                if got != want:
+                    return f"PolygonalRegion(square [0,4]^2, z={z}).{method}({tuple(pt)}) = {got}, but the point is {'in' if want else 'not in'} the region (distanceTo = {A.distanceTo(pt):.4g})"
+            return None
+
+        return replay
+
+    P = dict(self=C.Const(None), point=C.Const(None))
+    reg.add(C.Contract(f"{RG}:PolygonalRegion.containsPoint", params=P, setup=setup_poly, post=post_member("regions.PolygonalRegion.containsPoint"), inline_all=True, replay=replay_poly_contains("containsPoint"), properties=("C16",)))
+    reg.add(C.Contract(f"{RG}:PolygonalRegion._trueContainsPoint", params=P, setup=setup_poly, post=post_member("regions.PolygonalRegion._trueContainsPoint"), inline_all=True, replay=replay_poly_contains("_trueContainsPoint"), properties=("C16",)))
+
+    def post_poly_dist(I, env, outcome):
+        if outcome[0] != "return":
+            return
+        A = env.vars["self"]
+        check_distance(I, "regions.PolygonalRegion.distanceTo", outcome[1], A, A.fields["_polygons"], A.fields["z"], env.vars["_p"])
+
+    def replay_poly_dist(inputs, clause):
+        import math
+
+        R, Vector = _real_regions()
+        z = float(inputs.get("self.z", 0.0))
+        A = R.PolygonalRegion([(0, 0), (4, 0), (4, 4), (0, 4)], z=z)
+        pz = float(inputs["point"][2])
+        for x, y, d2 in ((1, 1, 0.0), (7, 0, 3.0), (7, 8, 5.0)):
+            got = A.distanceTo(Vector(x, y, pz))
+            want = math.hypot(d2, pz - z)
+            if abs(got - want) > 1e-9:
+                return f"PolygonalRegion(square [0,4]^2, z={z}).distanceTo(({x}, {y}, {pz})) = {got}, Euclidean distance to the nearest member is {want}"
+        return None
+
+    reg.add(C.Contract(f"{RG}:PolygonalRegion.distanceTo", params=P, setup=setup_poly, post=post_poly_dist, inline_all=True, replay=replay_poly_dist, properties=("C16",)))
+
+    # ---------------------------------------------------------------- CircularRegion
+    def setup_circ(I, env):
+        A = mk_circular(I)
+        v, p = mk_point(I)
+        env.vars.update(self=A, point=v, _p=p)
+
+    def replay_circ(method):
+        def replay(inputs, clause):
+            import math
+
+            R, Vector = _real_regions()
+            c = [float(x) for x in inputs["self.center"]]
+            rad = float(inputs["self.radius"])
+            Cr = R.CircularRegion(Vector(*c), rad, resolution=256)
+            pts = [tuple(float(x) for x in inputs["point"])]
+            pz = pts[0][2]
+            pts += [(c[0] + 3 * rad, c[1], pz), (c[0] + rad / 2, c[1], pz), (c[0], c[1] - 2 * rad, pz)]
+            for p in pts:
+                planar = math.hypot(p[0] - c[0], p[1] - c[1])
+                if method == "distanceTo":
+                    got = Cr.distanceTo(Vector(*p))
+                    want = math.hypot(max(0.0, planar - rad), p[2] - c[2])
+                    if abs(got - want) > 1e-3 * max(1.0, rad):
+                        return f"CircularRegion(centre {tuple(c)}, radius {rad}).distanceTo({p}) = {got:.6g}, Euclidean distance to the nearest point of the disc is {want:.6g}"
+                else:
+                    if abs(planar - rad) < 1e-6:
+                        continue
+                    got = bool(Cr.containsPoint(Vector(*p)))
+                    want = planar <= rad and p[2] == c[2]
+                    if got != want:
+                        return f"CircularRegion(centre {tuple(c)}, radius {rad}).containsPoint({p}) = {got}, expected {want}"
+            return None
+
+        return replay
+
+    reg.add(C.Contract(f"{RG}:CircularRegion.containsPoint", params=P, setup=setup_circ, post=post_member("regions.CircularRegion.containsPoint", "member_iff_in_disc_at_height_z"), inline_all=True, replay=replay_circ("containsPoint"), properties=("C16",)))
+
+    def post_circ_dist(I, env, outcome):
+        if outcome[0] != "return":
+            return
+        A = env.vars["self"]
+        check_distance(I, "regions.CircularRegion.distanceTo", outcome[1], A, A.fields["_polygons"], A.fields["z"], env.vars["_p"])
+
+    reg.add(C.Contract(f"{RG}:CircularRegion.distanceTo", params=P, setup=setup_circ, post=post_circ_dist, inline_all=True, replay=replay_circ("distanceTo"), properties=("C16",)))
+
+    # ---------------------------------------------------------------- SectorRegion.containsPoint
+    VIEW = z3.Function("viewAngle", _R, _R, _R, _R, _R, _R)
+
+    def view_angle(I, point, base, heading):
+        px, py = point[0], point[1]
+        bx, by = base[0], base[1]
+        return SV(VIEW(*[toz3(v, want_real=True) for v in (px, py, bx, by, heading)]), True)
+
+    reg.models[f"{GEO}:viewAngleToPoint"] = view_angle
+    reg.trust("geometry.viewAngleToPoint", "abstract: viewAngle(point, base, heading) = signed angle in [-pi, pi] between the heading direction at `base` and the direction to `point` (atan2 + normalizeAngle not expanded; normalizeAngle is proved under C08)")
+
+    def setup_sector(I, env):
+        eng = I.eng
+        A = mk_circular(I)
+        A.cls = RC("SectorRegion")
+        h, a = eng.fresh_real("self.heading"), eng.fresh_real("self.angle")
+        eng.assume(sv_and(compare(">=", a, 0)))
+        eng.input_syms.append(("self.heading", C.Real(), h))
+        eng.input_syms.append(("self.angle", C.Real(), a))
+        A.fields.update(heading=h, angle=a)
+        c = A.fields["center"].fields["coordinates"]
+        rad = A.fields["radius"]
+        # the sector's polygon: the disc cut by the cone (oracle for mem3)
+        disc = A.fields["_polygons"]
+        def memsec(x, y):
+            va = SV(VIEW(*[toz3(v, want_real=True) for v in (x, y, c[0], c[1], h)]), True)
+            absva = sv_ite(compare(">=", va, 0), va, arith("-", 0, va))
+            return sv_and(MS.gmem(disc, x, y), compare("<=", absva, arith("/", a, 2)))
+        A.fields["_polygons"] = MS.make_geom(I, "Polygon", mem=memsec, empty=False, tag="self.sector")
+        v, p = mk_point(I)
+        env.vars.update(self=A, point=v, _p=p)
+
+    reg.add(C.Contract(f"{RG}:SectorRegion.containsPoint", params=P, setup=setup_sector, post=post_member("regions.SectorRegion.containsPoint", "member_iff_in_cone_within_radius_at_height_z"), inline_all=True, properties=("C16",)))
+
+    # ---------------------------------------------------------------- PolylineRegion / PolygonalFootprintRegion
+    def setup_line(I, env):
+        A = mk_polyline(I, "self")
+        v, p = mk_point(I)
+        env.vars.update(self=A, point=v, _p=p)
+
+    def replay_line(method):
+        def replay(inputs, clause):
+            import math
+
+            R, Vector = _real_regions()
+            L = R.PolylineRegion([(0, 0), (4, 0)])
+            pz = float(inputs["point"][2])
+            for x, y, d2 in ((1, 0, 0.0), (1, 3, 3.0), (8, 3, 5.0)):
+                if method == "distanceTo":
+                    got, want = L.distanceTo(Vector(x, y, pz)), math.hypot(d2, pz)
+                    if abs(got - want) > 1e-9:
+                        return f"PolylineRegion((0,0)-(4,0)).distanceTo(({x},{y},{pz})) = {got}, expected {want}"
+                else:
+                    got, want = bool(L.containsPoint(Vector(x, y, pz))), d2 == 0 and pz == 0
+                    if got != want:
+                        return f"PolylineRegion((0,0)-(4,0)).containsPoint(({x},{y},{pz})) = {got}, expected {want}"
+            return None
+
+        return replay
+
+    reg.add(C.Contract(f"{RG}:PolylineRegion.containsPoint", params=P, setup=setup_line, post=post_member("regions.PolylineRegion.containsPoint", "member_iff_on_the_line_at_z_0"), inline_all=True, replay=replay_line("containsPoint"), properties=("C16",)))
+
+    def post_line_dist(I, env, outcome):
+        if outcome[0] != "return":
+            return
+        A = env.vars["self"]
+        check_distance(I, "regions.PolylineRegion.distanceTo", outcome[1], A, A.fields["lineString"], 0, env.vars["_p"])
+
+    reg.add(C.Contract(f"{RG}:PolylineRegion.distanceTo", params=P, setup=setup_line, post=post_line_dist, inline_all=True, replay=replay_line("distanceTo"), properties=("C16",)))
+
+    def setup_fp(I, env):
+        A = mk_footprint(I, "self")
+        v, p = mk_point(I)
+        env.vars.update(self=A, point=v, _p=p)
+
+    reg.add(C.Contract(f"{RG}:PolygonalFootprintRegion.containsPoint", params=P, setup=setup_fp, post=post_member("regions.PolygonalFootprintRegion.containsPoint", "member_iff_xy_in_polygon"), inline_all=True, properties=("C16",)))
+
+    def post_fp_dist(I, env, outcome):
+        if outcome[0] != "return":
+            return
+        A = env.vars["self"]
+        check_distance(I, "regions.PolygonalFootprintRegion.distanceTo", outcome[1], A, A.fields["polygons"], None, env.vars["_p"])
+
+    reg.add(C.Contract(f"{RG}:PolygonalFootprintRegion.distanceTo", params=P, setup=setup_fp, post=post_fp_dist, inline_all=True, properties=("C16",)))
+
+    # ---------------------------------------------------------------- PointSetRegion (KD-tree contract)
+    def setup_ps(I, env):
+        eng = I.eng
+        A = PObj(RC("PointSetRegion"), tag="self")
+        init_samplable(A)
+        tol = eng.fresh_real("self.tolerance")
+        eng.assume(compare(">=", tol, 0))
+        v, p = mk_point(I)
+        # scipy.spatial.KDTree.query(p) -> (distance to the nearest point of the set, its index)   [trusted]
+        d = eng.fresh_real("kd.distance")
+        n = tuple(eng.fresh_real(f"kd.nearest.{c}") for c in "xyz")
+        eng.assume(sv_and(compare(">=", d, 0), compare("==", sq(d), dist3sq(p, n))))
+        tree = PObj("KDTree", tag="kdTree")
+        tree.fields["query"] = BuiltinFn("query", lambda q, *a, **k: (d, eng.fresh_int("kd.index")))
+        ptsmem = z3.Function("mem3!points", _R, _R, _R, z3.BoolSort())
+        inpts = lambda q: SV(ptsmem(*[toz3(c, want_real=True) for c in q]))
+        eng.assume(inpts(n))
+        A.fields.update(kdTree=tree, tolerance=tol, orientation=None, name="ps", _points_mem=inpts, _nearest=(d, n))
+        # the region: everything within `tolerance` of one of the points
+        env.vars.update(self=A, point=v, _p=p)
+
+    reg.trust("scipy.spatial.KDTree.query", "query(p) returns the distance from p to the nearest point of the tree (a point of the set attains it; no point of the set is nearer) and its index")
+
+    def post_ps(method):
+        oname = f"regions.PointSetRegion.{method}"
+
+        def post(I, env, outcome):
+            eng = I.eng
+            if outcome[0] != "return":
+                return
+            A, p = env.vars["self"], env.vars["_p"]
+            d, n = A.fields["_nearest"]
+            res = outcome[1]
+            q = tuple(eng.fresh_real(f"member.{c}") for c in "xyz")
+            eng.assume(sv_implies(A.fields["_points_mem"](q), compare("<=", sq(d), dist3sq(p, q))))  # KD-tree contract at q
+            if method == "containsPoint":
+                # member <=> within tolerance of some point of the set
+                tol = A.fields["tolerance"]
+                eng.check(f"{oname}#ensures.true_only_within_tolerance_of_a_point_of_the_set", sv_implies(res, sv_and(A.fields["_points_mem"](n), compare("<=", dist3sq(p, n), sq(tol)))))
+                eng.check(f"{oname}#ensures.true_when_within_tolerance_of_a_point_of_the_set", sv_implies(sv_and(A.fields["_points_mem"](q), compare("<=", dist3sq(p, q), sq(tol))), res))
+            else:
+                eng.check(f"{oname}#ensures.non_negative", compare(">=", res, 0))
+                eng.check(f"{oname}#ensures.no_point_of_the_set_is_nearer", sv_implies(A.fields["_points_mem"](q), compare("<=", sq(res), dist3sq(p, q))))
+                eng.check(f"{oname}#ensures.is_the_distance_to_the_nearest_point", sv_and(A.fields["_points_mem"](n), compare("==", sq(res), dist3sq(p, n))))
+
+        return post
+
+    reg.add(C.Contract(f"{RG}:PointSetRegion.containsPoint", params=P, setup=setup_ps, post=post_ps("containsPoint"), inline_all=True, properties=("C16",)))
+    reg.add(C.Contract(f"{RG}:PointSetRegion.distanceTo", params=P, setup=setup_ps, post=post_ps("distanceTo"), inline_all=True, properties=("C16",)))
+
+
+# ===================================================================================================
+# projection along a direction
+
+
+def register_project_vector(reg):
+    oname = "regions.MeshRegion.projectVector"
+
+    def setup(I, env):
+        eng = I.eng
+        cls = ["MeshSurfaceRegion", "MeshVolumeRegion"][eng.choose(2, "surface or volume")]
+        A = PObj(RC(cls), tag="self")
+        init_samplable(A)
+        mesh = MS.make_mesh(I, "mesh")
+        inside = eng.fresh_bool("point_in_region")
+        A.fields.update(mesh=mesh, orientation=None, name=None)
+        A.fields["containsPoint"] = BuiltinFn("containsPoint", lambda pt: inside)
+        v, p = mk_point(I)
+        d = tuple(eng.fresh_real(f"direction.{c}") for c in "xyz")
+        eng.input_syms.append(("direction", C.TupleOf(C.Real(), C.Real(), C.Real()), d))
+        eng.assume(sv_not(sv_and(*[compare("==", c, 0) for c in d])))
+        env.vars.update(self=A, point=v, onDirection=make_vector(*d), _p=p, _d=d, _mesh=mesh, _inside=inside)
+
+    def post(I, env, outcome):
+        eng = I.eng
+        if outcome[0] != "return":
+            return
+        res = outcome[1]
+        p, mesh = env.vars["_p"], env.vars["_mesh"]
+        calls = mesh.fields["_ray_calls"]
+        if not calls:
+            # the point is in the region: it is its own projection
+            eng.check(f"{oname}#ensures.member_projects_to_itself", sv_and(env.vars["_inside"], res is env.vars["point"]))
+            return
+        eng.check(f"{oname}#ensures.casts_along_plus_and_minus_direction_once", len(calls) == 1 and len(calls[0]["hits"]) == 2)
+        call = calls[0]
+        d = env.vars["_d"]
+        dirs_ok = sv_and(*[sv_and(compare("==", a, b), compare("==", c_, arith("-", 0, b))) for a, c_, b in zip(call["directions"][0].data, call["directions"][1].data, d)])
+        orig_ok = sv_and(*[compare("==", a, b) for o in call["origins"] for a, b in zip(o.data, p)])
+        eng.check(f"{oname}#ensures.rays_start_at_the_point_along_the_direction_and_its_negation", sv_and(dirs_ok, orig_ok))
+        hits = [h for h in call["hits"] if h is not None]
+        eng.input_syms.append(("hit_distances", C.Const(None), None))
+        for k, h in enumerate(call["hits"]):
+            if h is not None:
+                eng.input_syms.append((f"t{k}", C.Real(), h[0]))
+        if not hits:
+            eng.check(f"{oname}#ensures.none_when_no_hit", res is None)
+            return
+        ok = isinstance(res, PObj) and "coordinates" in res.fields
+        eng.check(f"{oname}#ensures.returns_a_vector_when_hit", ok)
+        if not ok:
+            return
+        r = res.fields["coordinates"]
+        eng.check(f"{oname}#ensures.result_is_one_of_the_hits", sv_or(*[sv_and(*[compare("==", a, b) for a, b in zip(r, h[1])]) for h in hits]))
+        eng.check(f"{oname}#ensures.result_is_the_nearest_hit", sv_and(*[compare("<=", dist3sq(p, r), dist3sq(p, h[1])) for h in hits]))
+
+    def replay(inputs, clause):
+        R, Vector = _real_regions()
+        t0, t1 = inputs.get("t0"), inputs.get("t1")
+        if t0 is None or t1 is None:
+            return None
+        t0, t1 = max(float(t0), 0.0) + 0.5, max(float(t1), 0.0) + 0.5
+        if abs(t0 - t1) < 1e-9:
+            t1 += 1.0
+        # a box whose top face is t0 above and whose bottom face is t1 below the point (0, 0, 0); direction +z
+        box = R.BoxRegion(dimensions=(10, 10, t0 + t1), position=Vector(0, 0, (t0 - t1) / 2))
+        surf = box.getSurfaceRegion()
+        got = surf.projectVector(Vector(0, 0, 0), Vector(0, 0, 1))
+        want = Vector(0, 0, t0) if t0 < t1 else Vector(0, 0, -t1)
+        if got is None or abs(got.z - want.z) > 1e-6:
+            return f"box surface with faces {t0} above and {t1} below the point (0,0,0): projectVector along +-z returned {got}, the nearest hit is {want}"
+        return None
+
+    reg.add(
+        C.Contract(
+            f"{RG}:MeshRegion.projectVector",
+            params=dict(self=C.Const(None), point=C.Const(None), onDirection=C.Const(None)),
+            setup=setup,
+            post=post,
+            inline_all=True,
+            replay=replay,
+            note="explicit direction given (the default-direction arm only selects the direction)",
+            properties=("C16",),
+        )
+    )
+
+
+# ===================================================================================================
+# double dispatch, generic fallbacks, AllRegion / EmptyRegion laws, composed regions
+
+
+def delegated(log, op):
+    return [c for c in log if c[0] == op]
+
+
+def check_delegation(I, oname, log, op, A, res):
+    """`A.op(B)` with triedReversed=False hands over to B exactly once, with the operands swapped and
+    triedReversed=True (so a dispatch chain has at most 2 hops), and returns B's answer."""
+    calls = delegated(log, op)
+    ok = len(calls) == 1 and calls[0][2] == (A,) and calls[0][3] == {"triedReversed": True}
+    I.eng.check(f"{oname}#dispatch.reversed_exactly_once_with_triedReversed_True", ok)
+
+
+def set_want(op, a, b):
+    return {"intersect": sv_and(a, b), "union": sv_or(a, b), "difference": sv_and(a, sv_not(b))}[op]
+
+
+def register_dispatch(reg):
+    # ---------------------------------------------------------------- Region.intersect / union / difference (base class)
+    def setup_base(op):
+        def setup(I, env):
+            eng = I.eng
+            log = []
+            A = PObj(RC("Region"), tag="self")
+            init_samplable(A)
+            predA = z3.Function("mem3!self", _R, _R, _R, z3.BoolSort())
+            A.fields.update(name="A", orientation=None, _mem3=lambda p: SV(predA(*[toz3(c, want_real=True) for c in p])))
+            if op == "difference":
+                k = eng.choose(3, "other: generic / nowhere / everywhere")
+                B = mk_abstract(I, "other", log) if k == 0 else mk_special(I, "EmptyRegion" if k == 1 else "AllRegion")
+            else:
+                B = mk_abstract(I, "other", log, rich=(op == "intersects"))
+                tr = eng.choose(2, "triedReversed") == 1
+                env.vars["triedReversed"] = tr
+            env.vars.update(self=A, other=B, _log=log, _p=probe(I))
+
+        return setup
+
+    def post_base(op):
+        oname = f"regions.Region.{op}"
+
+        def post(I, env, outcome):
+            eng = I.eng
+            A, B, p, log = env.vars["self"], env.vars["other"], env.vars["_p"], env.vars["_log"]
+            tr = env.vars.get("triedReversed")
+            if op == "intersects":
+                if outcome[0] == "raise":
+                    # NotImplementedError: only when even the reversed attempt yields a generic IntersectionRegion
+                    forms = [c[4].get("form") for c in delegated(log, "intersect")]
+                    eng.check(f"{oname}#raises.NotImplementedError.only_for_a_generic_intersection", bool(tr) and forms == [2])
+                    return
+                res = outcome[1]
+                if not tr:
+                    calls = delegated(log, "intersects")
+                    ok = len(calls) == 1 and calls[0][2] == (A,) and calls[0][3] == {"triedReversed": True}
+                    eng.check(f"{oname}#dispatch.reversed_exactly_once_with_triedReversed_True", ok)
+                    if ok:
+                        eng.check(f"{oname}#ensures.returns_the_reversed_answer", iff(res, calls[0][4]["result"]))
+                    return
+                calls = delegated(log, "intersect")
+                eng.check(f"{oname}#dispatch.last_resort_computes_the_intersection_once", len(calls) == 1 and not delegated(log, "intersects"))
+                if len(calls) != 1:
+                    return
+                e = calls[0][4]
+                eng.check(f"{oname}#ensures.returns_a_bool", isinstance(res, bool))
+                if e.get("form") == 0:
+                    w = e["shared"]
+                    eng.check(f"{oname}#ensures.true_iff_the_regions_share_a_point", sv_and(res is True, mem3(I, A, w), mem3(I, B, w)))
+                elif e.get("form") == 1:
+                    eng.assume(sv_not(sv_and(mem3(I, A, p), mem3(I, B, p))))  # the delegated result is `nowhere`: no shared point (instance at p)
+                    eng.check(f"{oname}#ensures.true_iff_the_regions_share_a_point", res is False)
+                return
+            if outcome[0] != "return":
+                return
+            res = outcome[1]
+            ok = isinstance(res, PObj)
+            eng.check(f"{oname}#ensures.returns_a_region", ok)
+            if not ok:
+                return
+            eng.check(f"{oname}#ensures.set_semantics", iff(mem3(I, res, p), set_want(op, mem3(I, A, p), mem3(I, B, p))))
+            if op == "difference":
+                if is_a(I, B, "EmptyRegion"):
+                    eng.check(f"{oname}#ensures.minus_nowhere_is_self", res is A)
+                elif is_a(I, B, "AllRegion"):
+                    eng.check(f"{oname}#ensures.minus_everywhere_is_nowhere", is_a(I, res, "EmptyRegion"))
+                else:
+                    eng.check(f"{oname}#dispatch.generic_fallback_is_DifferenceRegion", is_a(I, res, "DifferenceRegion") and res.fields["regionA"] is A and res.fields["regionB"] is B and not log)
+                return
+            if tr:
+                cls_ = {"intersect": "IntersectionRegion", "union": "UnionRegion"}[op]
+                eng.check(f"{oname}#dispatch.no_second_reversal", not log)
+                eng.check(f"{oname}#dispatch.generic_fallback", is_a(I, res, cls_) and tuple(res.fields["regions"]) == (A, B))
+            else:
+                check_delegation(I, oname, log, op, A, res)
+
+        return post
+
+    for op in ("intersect", "union", "difference", "intersects"):
+        params = dict(self=C.Const(None), other=C.Const(None))
+        if op != "difference":
+            params["triedReversed"] = C.Const(False)
+        reg.add(
+            C.Contract(
+                f"{RG}:Region.{op}",
+                params=params,
+                setup=setup_base(op),
+                post=post_base(op),
+                raises=[C.Raises("NotImplementedError", mode="may")] if op == "intersects" else (),
+                inline_all=True,
+                properties=("C16",),
+            )
+        )
+
+    # ---------------------------------------------------------------- AllRegion / EmptyRegion laws
+    def setup_special(cls, op):
+        def setup(I, env):
+            eng = I.eng
+            log = []
+            A = mk_special(I, cls)
+            k = eng.choose(3, "other: generic / nowhere / everywhere")
+            B = mk_abstract(I, "other", log) if k == 0 else mk_special(I, "EmptyRegion" if k == 1 else "AllRegion")
+            env.vars.update(self=A, other=B, _log=log, _p=probe(I))
+            if op in ("intersect", "union", "intersects"):
+                env.vars["triedReversed"] = eng.choose(2, "triedReversed") == 1
+
+        return setup
+
+    def post_special(cls, op):
+        oname = f"regions.{cls}.{op}"
+
+        def post(I, env, outcome):
+            eng = I.eng
+            if outcome[0] != "return":
+                return
+            A, B, p, log = env.vars["self"], env.vars["other"], env.vars["_p"], env.vars["_log"]
+            res = outcome[1]
+            eng.check(f"{oname}#dispatch.answers_directly", not log)
+            if op == "intersects":
+                # non-empty other (witness) / nowhere / everywhere
+                if is_a(I, B, "EmptyRegion") or cls == "EmptyRegion":
+                    shares = False
+                else:
+                    shares = True  # B has a point (witness or everywhere) and A = everywhere contains it
+                eng.check(f"{oname}#ensures.true_iff_the_regions_share_a_point", isinstance(res, bool) and res == shares)
+                return
+            ok = isinstance(res, PObj)
+            eng.check(f"{oname}#ensures.returns_a_region", ok)
+            if ok:
+                eng.check(f"{oname}#ensures.set_semantics", iff(mem3(I, res, p), set_want(op, mem3(I, A, p), mem3(I, B, p))))
+
+        return post
+
+    for cls, ops in (("AllRegion", ("intersect", "union", "intersects")), ("EmptyRegion", ("intersect", "union", "intersects", "difference"))):
+        for op in ops:
+            params = dict(self=C.Const(None), other=C.Const(None))
+            if op != "difference":
+                params["triedReversed"] = C.Const(False)
+            reg.add(C.Contract(f"{RG}:{cls}.{op}", params=params, setup=setup_special(cls, op), post=post_special(cls, op), inline_all=True, properties=("C16",)))
+
+    # ---------------------------------------------------------------- composed regions: Boolean combination
+    def mk_operand(I, tag, answers):
+        eng = I.eng
+        o = PObj("AbstractRegion", tag=tag)
+        init_samplable(o)
+        o.fields.update(orientation=None, name=tag)
+        for m in ("containsPoint", "containsObject", "intersects"):
+            b = eng.fresh_bool(f"{tag}.{m}")
+            answers[(tag, m)] = b
+            o.fields[m] = BuiltinFn(m, lambda x, b=b, **k: b)
+        return o
+
+    def setup_composed(cls, method):
+        def setup(I, env):
+            eng = I.eng
+            ans = {}
+            r1, r2 = mk_operand(I, "A", ans), mk_operand(I, "B", ans)
+            S = PObj(RC(cls), tag="self")
+            init_samplable(S)
+            S.fields.update(orientation=None, name=None, sampler=None)
+            if cls == "DifferenceRegion":
+                S.fields.update(regionA=r1, regionB=r2)
+            else:
+                n = 2 + eng.choose(2, "two or three operands")
+                regs = [r1, r2] + ([mk_operand(I, "C", ans)] if n == 3 else [])
+                S.fields["regions"] = tuple(regs)
+            env.vars.update(self=S, _ans=ans)
+            if method == "containsPoint":
+                env.vars["point"] = mk_point(I)[0]
+            else:
+                obj = PObj("Object", tag="obj")
+                obj.fields["occupiedSpace"] = PObj("AbstractRegion", tag="obj.occupiedSpace")
+                env.vars["obj"] = obj
+
+        return setup
+
+    def post_composed(cls, method):
+        oname = f"regions.{cls}.{method}"
+
+        def post(I, env, outcome):
+            eng = I.eng
+            if outcome[0] != "return":
+                return
+            ans, S, res = env.vars["_ans"], env.vars["self"], outcome[1]
+            tags = ["A", "B"] + (["C"] if len(S.fields.get("regions", ())) == 3 else [])
+            if cls == "IntersectionRegion":
+                want = sv_and(*[ans[(t, method)] for t in tags])
+                clause = "true_iff_every_operand_says_true"
+            elif cls == "UnionRegion":
+                want = sv_or(*[ans[(t, method)] for t in tags])
+                clause = "true_iff_some_operand_says_true"
+            elif method == "containsPoint":
+                want = sv_and(ans[("A", method)], sv_not(ans[("B", method)]))
+                clause = "true_iff_in_A_and_not_in_B"
+            else:
+                want = sv_and(ans[("A", "containsObject")], sv_not(ans[("B", "intersects")]))
+                clause = "true_iff_A_contains_the_object_and_B_does_not_touch_it"
+            eng.check(f"{oname}#ensures.{clause}", iff(I.truth(res), want))
+
+        return post
+
+    for cls, methods in (("IntersectionRegion", ("containsPoint", "containsObject")), ("UnionRegion", ("containsPoint",)), ("DifferenceRegion", ("containsPoint", "containsObject"))):
+        for m in methods:
+            params = dict(self=C.Const(None), point=C.Const(None)) if m == "containsPoint" else dict(self=C.Const(None), obj=C.Const(None))
+            reg.add(C.Contract(f"{RG}:{cls}.{m}", params=params, setup=setup_composed(cls, m), post=post_composed(cls, m), inline_all=True, properties=("C16",)))
+
+    # ---------------------------------------------------------------- PointSetRegion.intersect: dispatch protocol
+    def setup_ps(I, env):
+        eng = I.eng
+        log = []
+        A = PObj(RC("PointSetRegion"), tag="self")
+        init_samplable(A)
+        pred = z3.Function("mem3!pointset", _R, _R, _R, z3.BoolSort())
+        A.fields.update(name="ps", orientation=None, _mem3=lambda p: SV(pred(*[toz3(c, want_real=True) for c in p])))
+        B = mk_abstract(I, "other", log)
+        tr = eng.choose(2, "triedReversed") == 1
+        eng.input_syms.append(("triedReversed", C.Const(None), tr))
+        env.vars.update(self=A, other=B, triedReversed=tr, _log=log, _p=probe(I))
+
+    def post_ps(I, env, outcome):
+        eng = I.eng
+        oname = "regions.PointSetRegion.intersect"
+        if outcome[0] != "return":
+            return
+        A, B, p, log, tr, res = env.vars["self"], env.vars["other"], env.vars["_p"], env.vars["_log"], env.vars["triedReversed"], outcome[1]
+        ok = isinstance(res, PObj)
+        eng.check(f"{oname}#ensures.returns_a_region", ok)
+        if not ok:
+            return
+        eng.check(f"{oname}#ensures.set_semantics", iff(mem3(I, res, p), sv_and(mem3(I, A, p), mem3(I, B, p))))
+        if tr:
+            eng.check(f"{oname}#dispatch.no_second_reversal", not log)
+            eng.check(f"{oname}#dispatch.generic_fallback_with_sampler", is_a(I, res, "IntersectionRegion") and tuple(res.fields["regions"]) == (A, B) and res.fields.get("sampler") is not None)
+        else:
+            check_delegation(I, oname, log, "intersect", A, res)
+
+    def replay_ps(inputs, clause):
+        R, Vector = _real_regions()
+        a = R.PointSetRegion("a", [(0, 0, 0), (1, 1, 0)])
+        b = R.PointSetRegion("b", [(0, 0, 0), (2, 2, 0)])
+        import sys
+
+        sys.setrecursionlimit(300)
+        a.intersect(b)  # the un-flagged reversal bounces between the two operands forever (RecursionError)
+        return None
+
+    reg.add(C.Contract(f"{RG}:PointSetRegion.intersect", params=dict(self=C.Const(None), other=C.Const(None), triedReversed=C.Const(False)), setup=setup_ps, post=post_ps, inline_all=True, replay=replay_ps, properties=("C16",)))
+
+
+# ===================================================================================================
+# footprint / polyline set operations, intersects (z-awareness), region-in-region containment
+
+
+class UndefinedNames(dict):
+    """Free names of a carrier that are defined nowhere (not a parameter / local, not at module level, not a builtin):
+    looking one up raises NameError, as in Python."""
+
+    def __init__(self, target):
+        import ast
+        import builtins
+
+        from pyvc import extract
+        from pyvc.interp import SymRaise
+        from pyvc.values import PExc
+
+        super().__init__()
+        self._raise = lambda n: (_ for _ in ()).throw(SymRaise(PExc(NameError, (f"name '{n}' is not defined",))))
+        ex = extract.extract(target)
+        bound = {a.arg for a in ast.walk(ex.node) if isinstance(a, ast.arg)}
+        bound |= {n.id for n in ast.walk(ex.node) if isinstance(n, ast.Name) and isinstance(n.ctx, (ast.Store, ast.Del))}
+        bound |= {n.name for n in ast.walk(ex.node) if isinstance(n, (ast.FunctionDef, ast.ClassDef)) and n is not ex.node}
+        for n in ast.walk(ex.node):
+            if isinstance(n, (ast.Import, ast.ImportFrom)):
+                bound |= {(a.asname or a.name).split(".")[0] for a in n.names}
+            if isinstance(n, ast.ExceptHandler) and n.name:
+                bound.add(n.name)
+        for n in ast.walk(ex.node):
+            if isinstance(n, ast.Name) and isinstance(n.ctx, ast.Load) and n.id not in bound:
+                if n.id in ex.module.top or hasattr(builtins, n.id) or n.id in ("__class__",):
+                    continue
+                dict.__setitem__(self, n.id, None)
+
+    def __getitem__(self, name):
+        self._raise(name)
+
+
+def with_undefined_names(contract):
+    und = UndefinedNames(contract.target)
+    if len(und):
+        for k, v in contract.env.items():
+            dict.__setitem__(und, k, v) if k not in und else None
+        contract.env = und
+    return contract
+
+
+def register_planar_ops(reg):
+    # ---------------------------------------------------------------- PolygonalFootprintRegion.intersect / union / difference
+    FP_KINDS = ["footprint", "polygonal", "generic"]
+
+    def setup_fp(op):
+        def setup(I, env):
+            eng = I.eng
+            log = []
+            kind = FP_KINDS[eng.choose(len(FP_KINDS), "class of other")]
+            A = mk_footprint(I, "self")
+            B = mk_other(I, kind, log)
+            env.vars.update(self=A, other=B, _log=log, _kind=kind)
+            eng.input_syms.append(("kind", C.Const(None), kind))
+            if op != "difference":
+                tr = eng.choose(2, "triedReversed") == 1
+                env.vars["triedReversed"] = tr
+                eng.input_syms.append(("triedReversed", C.Const(None), tr))
+            p = probe(I)
+            env.vars["_p"] = p
+            eng.assume(clear_of_boundaries(I, p, A, B))
+
+        return setup
+
+    def post_fp(op):
+        oname = f"regions.PolygonalFootprintRegion.{op}"
+
+        def post(I, env, outcome):
+            eng = I.eng
+            if outcome[0] != "return":
+                # two footprints that merely touch (their planar intersection is a line / point): within tolerance
+                inter = getattr(MS.world(I), "intersections", [])
+                touching = bool(inter) and inter[-1][2] not in ("empty", "Polygon", "MultiPolygon")  # incl. a GeometryCollection: boundaries touch somewhere
+                eng.check(f"{oname}#raises.TypeError.only_when_the_footprints_merely_touch", env.vars["_kind"] == "footprint" and touching)
+                return
+            res = outcome[1]
+            A, B, p, log, kind = env.vars["self"], env.vars["other"], env.vars["_p"], env.vars["_log"], env.vars["_kind"]
+            ok = isinstance(res, PObj)
+            eng.check(f"{oname}#ensures.returns_a_region", ok)
+            if not ok:
+                return
+            height_ok = True
+            if kind == "polygonal" and is_a(I, res, "PolygonalRegion"):
+                height_ok = compare("==", res.fields["z"], B.fields["z"])
+                eng.check(f"{oname}#ensures.result_keeps_height_z_of_the_planar_operand", height_ok)
+            eng.check(f"{oname}#ensures.set_semantics[{kind}]", sv_implies(height_ok, iff(mem3(I, res, p), set_want(op, mem3(I, A, p), mem3(I, B, p)))))
+            if kind == "generic":
+                tr = env.vars.get("triedReversed")
+                if op == "difference":
+                    eng.check(f"{oname}#dispatch.generic_fallback_is_DifferenceRegion", is_a(I, res, "DifferenceRegion") and not log)
+                elif tr:
+                    eng.check(f"{oname}#dispatch.no_second_reversal", not log)
+                else:
+                    check_delegation(I, oname, log, op, A, res)
+
+        return post
+
+    def replay_fp(op):
+        def replay(inputs, clause):
+            R, Vector = _real_regions()
+            kind = inputs.get("kind")
+            zb = float(inputs.get("other.z", 0.0))
+            A = R.PolygonalRegion([(0, 0), (4, 0), (4, 4), (0, 4)]).footprint
+            if kind == "polygonal":
+                B = R.PolygonalRegion([(2, 2), (6, 2), (6, 6), (2, 6)], z=zb)
+            elif kind == "footprint":
+                B = R.PolygonalRegion([(2, 2), (6, 2), (6, 6), (2, 6)]).footprint
+            else:
+                return None
+            res = getattr(A, op)(B)
+            if "height" in clause:
+                if isinstance(res, R.PolygonalRegion) and abs(res.z - zb) > 1e-9:
+                    return f"footprint.{op}(PolygonalRegion(z={zb})) returned a PolygonalRegion at z={res.z}"
+                return None
+            for x, y in ((3, 3), (1, 1), (5, 5)):
+                for z in sorted({zb, 0.0, zb + 1.5}):
+                    pt = Vector(x, y, z)
+                    a, b = _member(R, A, pt), _member(R, B, pt)
+                    want = {"intersect": a and b, "union": a or b, "difference": a and not b}[op]
+                    got = _member(R, res, pt)
+                    if got != want:
+                        return f"A = footprint of [0,4]^2, B = {type(B).__name__}{f' at z={zb}' if kind == 'polygonal' else ''}: point {tuple(pt)} in A: {a}, in B: {b}, but in A.{op}(B) = {res!r}: {got}"
+            return None
+
+        return replay
+
+    for op in ("intersect", "union", "difference"):
+        params = dict(self=C.Const(None), other=C.Const(None))
+        if op != "difference":
+            params["triedReversed"] = C.Const(False)
+        reg.add(C.Contract(f"{RG}:PolygonalFootprintRegion.{op}", params=params, setup=setup_fp(op), post=post_fp(op), raises=[C.Raises("TypeError", mode="may")] if op == "intersect" else (), inline_all=True, replay=replay_fp(op), properties=("C16",)))
+
+    # ---------------------------------------------------------------- PolylineRegion.intersect / difference / intersects, PolygonalRegion.intersects
+    def setup_line(op, selfkind):
+        def setup(I, env):
+            eng = I.eng
+            log = []
+            kinds = ["polygonal", "footprint", "polyline", "generic"] if selfkind == "polyline" else ["polygonal", "polyline", "generic"]
+            kind = kinds[eng.choose(len(kinds), "class of other")]
+            A = mk_polyline(I, "self") if selfkind == "polyline" else mk_polygonal(I, "self")
+            B = mk_other(I, kind, log) if not (kind == "generic" and op == "intersects") else mk_abstract(I, "other", log, rich=True)
+            env.vars.update(self=A, other=B, _log=log, _kind=kind)
+            eng.input_syms.append(("kind", C.Const(None), kind))
+            if op != "difference":
+                tr = eng.choose(2, "triedReversed") == 1
+                env.vars["triedReversed"] = tr
+                eng.input_syms.append(("triedReversed", C.Const(None), tr))
+            p = probe(I)
+            env.vars["_p"] = p
+            eng.assume(clear_of_boundaries(I, p, A, B))
+
+        return setup
+
+    def post_line_setop(op):
+        oname = f"regions.PolylineRegion.{op}"
+
+        def post(I, env, outcome):
+            eng = I.eng
+            if outcome[0] != "return":
+                return
+            res = outcome[1]
+            A, B, p, log, kind = env.vars["self"], env.vars["other"], env.vars["_p"], env.vars["_log"], env.vars["_kind"]
+            ok = isinstance(res, PObj)
+            eng.check(f"{oname}#ensures.returns_a_region", ok)
+            if not ok:
+                return
+            eng.check(f"{oname}#ensures.set_semantics[{kind}]", iff(mem3(I, res, p), set_want(op, mem3(I, A, p), mem3(I, B, p))))
+            if kind == "generic":
+                tr = env.vars.get("triedReversed")
+                if op == "difference":
+                    eng.check(f"{oname}#dispatch.generic_fallback_is_DifferenceRegion", is_a(I, res, "DifferenceRegion") and not log)
+                elif tr:
+                    eng.check(f"{oname}#dispatch.no_second_reversal", not log)
+                else:
+                    check_delegation(I, oname, log, op, A, res)
+
+        return post
+
+    def replay_line(op):
+        def replay(inputs, clause):
+            R, Vector = _real_regions()
+            kind = inputs.get("kind")
+            zb = float(inputs.get("other.z", 0.0))
+            L = R.PolylineRegion([(-1, 3), (7, 3)])
+            if kind == "polygonal":
+                B = R.PolygonalRegion([(0, 0), (4, 0), (4, 4), (0, 4)], z=zb)
+            elif kind == "footprint":
+                B = R.PolygonalRegion([(0, 0), (4, 0), (4, 4), (0, 4)]).footprint
+            elif kind == "polyline":
+                B = R.PolylineRegion([(3, -1), (3, 7)])
+                if op == "intersect":
+                    # two polylines that overlap along a segment AND cross in an isolated point
+                    L1 = R.PolylineRegion([(0, 0), (4, 0), (4, 4)])
+                    L2 = R.PolylineRegion([(1, 0), (3, 0), (3, 2), (5, 2)])
+                    r12 = L1.intersect(L2)
+                    pt = Vector(4, 2, 0)
+                    if L1.containsPoint(pt) and L2.containsPoint(pt) and not _member(R, r12, pt):
+                        return f"L1 = (0,0)-(4,0)-(4,4), L2 = (1,0)-(3,0)-(3,2)-(5,2): the crossing point (4,2,0) lies on both but not in L1.intersect(L2) = {r12!r} (isolated points of a mixed intersection are dropped)"
+            else:
+                return None
+            if op == "intersects":
+                got = bool(L.intersects(B))
+                want = not (kind == "polygonal" and zb != 0)
+                if got != want:
+                    return f"PolylineRegion (z=0) .intersects({type(B).__name__}{f' at z={zb}' if kind == 'polygonal' else ''}) = {got}; they share {'a' if want else 'no'} point"
+                return None
+            res = getattr(L, op)(B)
+            for x, y in ((3, 3), (5, 3), (-0.5, 3), (3, 5)):
+                for z in sorted({zb, 0.0}):
+                    pt = Vector(x, y, z)
+                    a, b = _member(R, L, pt), _member(R, B, pt)
+                    want = {"intersect": a and b, "difference": a and not b}[op]
+                    got = _member(R, res, pt)
+                    if got != want:
+                        return f"L = polyline (-1,3)-(7,3) at z=0, B = {type(B).__name__}{f' at z={zb}' if kind == 'polygonal' else ''}: point {tuple(pt)} in L: {a}, in B: {b}, but in L.{op}(B) = {res!r}: {got}"
+            return None
+
+        return replay
+
+    for op in ("intersect", "difference"):
+        params = dict(self=C.Const(None), other=C.Const(None))
+        if op != "difference":
+            params["triedReversed"] = C.Const(False)
+        reg.add(C.Contract(f"{RG}:PolylineRegion.{op}", params=params, setup=setup_line(op, "polyline"), post=post_line_setop(op), inline_all=True, replay=replay_line(op), properties=("C16",)))
+
+    def post_intersects(cls):
+        oname = f"regions.{cls}.intersects"
+
+        def post(I, env, outcome):
+            eng = I.eng
+            A, B, p, log, kind = env.vars["self"], env.vars["other"], env.vars["_p"], env.vars["_log"], env.vars["_kind"]
+            tr = env.vars["triedReversed"]
+            if outcome[0] == "raise":
+                forms = [c[4].get("form") for c in delegated(log, "intersect")]
+                eng.check(f"{oname}#raises.NotImplementedError.only_for_a_generic_intersection", kind == "generic" and bool(tr) and forms == [2])
+                return
+            res = outcome[1]
+            okb = isinstance(res, (bool, SV))
+            eng.check(f"{oname}#ensures.returns_a_bool", okb)
+            if not okb:
+                return
+            if kind == "generic":
+                if not tr:
+                    calls = delegated(log, "intersects")
+                    ok = len(calls) == 1 and calls[0][2] == (A,) and calls[0][3] == {"triedReversed": True}
+                    eng.check(f"{oname}#dispatch.reversed_exactly_once_with_triedReversed_True", ok)
+                return
+            # `A.intersects(B)` holds exactly when they share a point
+            eng.check(f"{oname}#ensures.a_shared_point_implies_true[{kind}]", sv_implies(sv_and(mem3(I, A, p), mem3(I, B, p)), res))
+            ga, gb = planar_geoms(I, A)[0], planar_geoms(I, B)[0]
+            wit = [w for (other_g, r, w) in ga.fields.get("_intersects_log", []) if other_g is gb]
+            if wit:
+                heights = {h for h in (height_of(I, A), height_of(I, B)) if h is not None}
+                w3 = (wit[0][0], wit[0][1], next(iter(heights)) if heights else 0)
+                eng.check(f"{oname}#ensures.true_implies_a_shared_point[{kind}]", sv_implies(res, sv_and(mem3(I, A, w3), mem3(I, B, w3))))
+            else:
+                eng.check(f"{oname}#ensures.true_implies_a_shared_point[{kind}]", sv_not(res))
+
+        return post
+
+    for cls, selfkind in (("PolylineRegion", "polyline"), ("PolygonalRegion", "polygonal")):
+        reg.add(
+            C.Contract(
+                f"{RG}:{cls}.intersects",
+                params=dict(self=C.Const(None), other=C.Const(None), triedReversed=C.Const(False)),
+                setup=setup_line("intersects", selfkind),
+                post=post_intersects(cls),
+                raises=[C.Raises("NotImplementedError", mode="may")],
+                inline_all=True,
+                replay=replay_line("intersects") if cls == "PolylineRegion" else replay_poly_intersects,
+                properties=("C16",),
+            )
+        )
+
+
+def exc_name(outcome):
+    c = outcome[1].cls
+    return getattr(c, "__name__", getattr(c, "name", str(c)))
+
+
+def height_of(I, r):
+    if is_a(I, r, "PolygonalRegion"):
+        return r.fields["z"]
+    if is_a(I, r, "PolylineRegion"):
+        return 0
+    return None
+
+
+def replay_poly_intersects(inputs, clause):
+    R, Vector = _real_regions()
+    kind = inputs.get("kind")
+    za, zb = float(inputs.get("self.z", 0.0)), float(inputs.get("other.z", 0.0))
+    A = R.PolygonalRegion([(0, 0), (4, 0), (4, 4), (0, 4)], z=za)
+    if kind == "polygonal":
+        B = R.PolygonalRegion([(2, 2), (6, 2), (6, 6), (2, 6)], z=zb)
+        want = za == zb
+    elif kind == "polyline":
+        B = R.PolylineRegion([(-1, 3), (7, 3)])
+        want = za == 0
+    else:
+        return None
+    got = bool(A.intersects(B))
+    if got != want:
+        return f"PolygonalRegion(z={za}).intersects({type(B).__name__}{f'(z={zb})' if kind == 'polygonal' else ' (z=0)'}) = {got}; they share {'a' if want else 'no'} point"
+    return None
+
+
+# ===================================================================================================
+# CircularRegion.intersects, region-in-region containment
+
+
+def register_containment(reg):
+    reg.trust("G-discs-meet", "two closed discs lying in the same plane share a point exactly when the distance of their centres is at most the sum of the radii; discs in different parallel planes share no point")
+
+    # ---------------------------------------------------------------- CircularRegion.intersects(CircularRegion)
+    def setup_ci(I, env):
+        A, B = mk_circular(I, "self"), mk_circular(I, "other")
+        env.vars.update(self=A, other=B, triedReversed=I.eng.choose(2, "triedReversed") == 1)
+
+    def post_ci(I, env, outcome):
+        eng = I.eng
+        oname = "regions.CircularRegion.intersects"
+        if outcome[0] != "return":
+            return
+        A, B, res = env.vars["self"], env.vars["other"], outcome[1]
+        ca, cb = A.fields["center"].fields["coordinates"], B.fields["center"].fields["coordinates"]
+        rsum = arith("+", A.fields["radius"], B.fields["radius"])
+        planar = arith("+", sq(arith("-", ca[0], cb[0])), sq(arith("-", ca[1], cb[1])))
+        share = sv_and(compare("==", ca[2], cb[2]), compare("<=", planar, sq(rsum)))  # G-discs-meet
+        eng.check(f"{oname}#ensures.true_iff_the_discs_share_a_point", iff(I.truth(res), share))
+
+    def replay_ci(inputs, clause):
+        import math
+
+        R, Vector = _real_regions()
+        ca, cb = [float(x) for x in inputs["self.center"]], [float(x) for x in inputs["other.center"]]
+        ra, rb = float(inputs["self.radius"]), float(inputs["other.radius"])
+        A, B = R.CircularRegion(Vector(*ca), ra), R.CircularRegion(Vector(*cb), rb)
+        got = bool(A.intersects(B))
+        planar = math.hypot(ca[0] - cb[0], ca[1] - cb[1])
+        if abs(planar - (ra + rb)) < 1e-9:
+            return None
+        want = ca[2] == cb[2] and planar <= ra + rb
+        if got != want:
+            return f"CircularRegion(centre {tuple(ca)}, r={ra}).intersects(CircularRegion(centre {tuple(cb)}, r={rb})) = {got}; the discs share {'a' if want else 'no'} point (A.intersect(B) = {A.intersect(B)!r})"
+        return None
+
+    reg.add(C.Contract(f"{RG}:CircularRegion.intersects", params=dict(self=C.Const(None), other=C.Const(None), triedReversed=C.Const(False)), setup=setup_ci, post=post_ci, inline_all=True, replay=replay_ci, properties=("C16",)), key=f"{RG}:CircularRegion.intersects[circular]")
+
+    # ---------------------------------------------------------------- containsRegionInner
+    def mk_tol(I):
+        eng = I.eng
+        if eng.choose(2, "tolerance zero or positive") == 0:
+            eng.input_syms.append(("tolerance", C.Const(None), 0))
+            return 0
+        t = eng.fresh_real("tolerance")
+        eng.assume(compare(">", t, 0))
+        eng.input_syms.append(("tolerance", C.Real(), t))
+        return t
+
+    def mk_mesh_region(I, tag):
+        r = PObj(RC("MeshVolumeRegion"), tag=tag)
+        init_samplable(r)
+        bp = MS.make_geom(I, "Polygon", empty=False, tag=tag + "._boundingPolygon")
+        pred = z3.Function(f"mem3!{tag}", _R, _R, _R, z3.BoolSort())
+        # a mesh lies inside the prism over its bounding polygon (projection onto the plane)
+        P3 = lambda p: SV(pred(*[toz3(c, want_real=True) for c in p]))
+        r.fields.update(_boundingPolygon=bp, orientation=None, name=None, _mem3=lambda p: sv_and(P3(p), MS.gmem(bp, p[0], p[1])))
+        zf = z3.Function(f"lift!{tag}", _R, _R, _R)
+
+        def lift(x, y):
+            # the bounding polygon is the projection of the mesh: every point of it lies below/above a mesh point
+            z = SV(zf(toz3(x, want_real=True), toz3(y, want_real=True)), True)
+            I.eng.assume(sv_implies(MS.gmem(bp, x, y), P3((x, y, z))))
+            return z
+
+        r.fields["_lift"] = lift
+        return r
+
+    def check_containment_answer(I, oname, res, container_geom, inner, tol, p, dz=None):
+        """result True => every member of `inner` is within `tol` of the container; result False => some member is not."""
+        eng = I.eng
+        okb = isinstance(res, (bool, SV))
+        eng.check(f"{oname}#ensures.returns_a_bool", okb)
+        if not okb:
+            return
+        d = MS.dist_at(I, container_geom, p[0], p[1], witness=False)
+        eng.check(f"{oname}#ensures.true_only_if_every_member_is_within_tolerance", sv_implies(sv_and(res, mem3(I, inner, p)), compare("<=", d, tol)))
+        log = getattr(MS.world(I), "contains_log", [])
+        if log:
+            a, b, r, (cx, cy) = log[-1]
+            dw = MS.dist_at(I, container_geom, cx, cy, witness=False)
+            zs = height_of(I, inner)
+            if "_lift" in inner.fields:
+                zs = inner.fields["_lift"](cx, cy)
+            w3 = (cx, cy, zs if zs is not None else p[2])
+            eng.check(f"{oname}#ensures.false_only_if_some_member_is_not_within_tolerance", sv_or(res, sv_and(mem3(I, inner, w3), compare(">", dw, tol))))
+        else:
+            eng.check(f"{oname}#ensures.false_only_if_some_member_is_not_within_tolerance", False)
+
+    # PolygonalFootprintRegion
+    FPK = ["polygonal", "footprint", "mesh", "generic"]
+
+    def setup_fpc(I, env):
+        eng = I.eng
+        kind = FPK[eng.choose(len(FPK), "class of reg")]
+        A = mk_footprint(I, "self")
+        B = mk_mesh_region(I, "reg") if kind == "mesh" else mk_other(I, kind, [], tag="reg")
+        env.vars.update(self=A, reg=B, tolerance=mk_tol(I), _kind=kind, _p=probe(I))
+        eng.input_syms.append(("kind", C.Const(None), kind))
+
+    def post_fpc(I, env, outcome):
+        eng = I.eng
+        oname = "regions.PolygonalFootprintRegion.containsRegionInner"
+        kind = env.vars["_kind"]
+        if outcome[0] == "raise":
+            if exc_name(outcome) == "NotImplementedError":
+                eng.check(f"{oname}#raises.NotImplementedError.only_for_other_region_classes", kind == "generic")
+            return
+        eng.check(f"{oname}#raises.NotImplementedError.must_for_other_region_classes", kind != "generic")
+        check_containment_answer(I, oname, outcome[1], env.vars["self"].fields["polygons"], env.vars["reg"], env.vars["tolerance"], env.vars["_p"])
+
+    def replay_fpc(inputs, clause):
+        R, Vector = _real_regions()
+        P = R.PolygonalRegion([(0, 0), (4, 0), (4, 4), (0, 4)])
+        Q = R.PolygonalRegion([(1, 1), (2, 1), (2, 2), (1, 2)])
+        got = P.footprint.containsRegionInner(Q if inputs.get("kind") != "footprint" else Q.footprint, float(inputs.get("tolerance", 0)))
+        if got is not True:
+            return f"footprint of [0,4]^2 .containsRegionInner([1,2]^2) = {got}"
+        return None
+
+    reg.add(with_undefined_names(C.Contract(f"{RG}:PolygonalFootprintRegion.containsRegionInner", params=dict(self=C.Const(None), reg=C.Const(None), tolerance=C.Const(0)), setup=setup_fpc, post=post_fpc, raises=[C.Raises("NotImplementedError", mode="may")], inline_all=True, replay=replay_fpc, properties=("C16",))))
+
+    # PolylineRegion (only regions of dimension <= 1 reach it: Region.containsRegion filters by dimensionality)
+    LK = ["polyline", "generic"]
+
+    def setup_lc(I, env):
+        eng = I.eng
+        kind = LK[eng.choose(len(LK), "class of other")]
+        A = mk_polyline(I, "self")
+        B = mk_other(I, kind, [], tag="other")
+        env.vars.update(self=A, other=B, tolerance=mk_tol(I), _kind=kind, _p=probe(I))
+        eng.input_syms.append(("kind", C.Const(None), kind))
+
+    def post_lc(I, env, outcome):
+        eng = I.eng
+        oname = "regions.PolylineRegion.containsRegionInner"
+        kind = env.vars["_kind"]
+        if outcome[0] == "raise":
+            if exc_name(outcome) == "TypeError":
+                eng.check(f"{oname}#raises.TypeError.only_for_regions_without_planar_geometry", kind == "generic")
+            return
+        eng.check(f"{oname}#raises.TypeError.must_for_regions_without_planar_geometry", kind != "generic")
+        check_containment_answer(I, oname, outcome[1], env.vars["self"].fields["lineString"], env.vars["other"], env.vars["tolerance"], env.vars["_p"])
+
+    def replay_lc(inputs, clause):
+        R, Vector = _real_regions()
+        L = R.PolylineRegion([(0, 0), (4, 4)])
+        tol = float(inputs.get("tolerance", 0))
+        got = L.containsRegionInner(R.PolylineRegion([(1, 1), (2, 2)]), tol)
+        if got is not True:
+            return f"PolylineRegion((0,0)-(4,4)).containsRegionInner(PolylineRegion((1,1)-(2,2)), tolerance={tol}) = {got}: the sub-segment lies on the polyline"
+        return None
+
+    reg.add(with_undefined_names(C.Contract(f"{RG}:PolylineRegion.containsRegionInner", params=dict(self=C.Const(None), other=C.Const(None), tolerance=C.Const(0)), setup=setup_lc, post=post_lc, raises=[C.Raises("TypeError", mode="may")], inline_all=True, replay=replay_lc, properties=("C16",))))
+
+    # PolygonalRegion
+    PK = ["polygonal", "polyline", "generic"]
+
+    def setup_pc(I, env):
+        eng = I.eng
+        kind = PK[eng.choose(len(PK), "class of other")]
+        A = mk_polygonal(I, "self")
+        B = mk_other(I, kind, [], tag="other")
+        env.vars.update(self=A, other=B, tolerance=mk_tol(I), _kind=kind, _p=probe(I))
+        eng.input_syms.append(("kind", C.Const(None), kind))
+
+    def post_pc(I, env, outcome):
+        eng = I.eng
+        oname = "regions.PolygonalRegion.containsRegionInner"
+        kind, A, B, p, tol = env.vars["_kind"], env.vars["self"], env.vars["other"], env.vars["_p"], env.vars["tolerance"]
+        if outcome[0] == "raise":
+            if exc_name(outcome) == "TypeError":
+                eng.check(f"{oname}#raises.TypeError.only_for_regions_without_planar_geometry", kind == "generic")
+            return
+        eng.check(f"{oname}#raises.TypeError.must_for_regions_without_planar_geometry", kind != "generic")
+        res = outcome[1]
+        hb = height_of(I, B)
+        same = compare("==", hb, A.fields["z"])
+        # heights: a region at another height (farther than the tolerance) is not contained
+        eng.check(f"{oname}#ensures.height_is_taken_into_account", sv_implies(sv_and(res, compare(">", sq(arith("-", hb, A.fields["z"])), sq(tol))), False))
+        eng.assume(same)
+        check_containment_answer(I, oname, res, A.fields["_polygons"], B, tol, p)
+
+    def replay_pc(inputs, clause):
+        R, Vector = _real_regions()
+        if "height" not in clause:
+            return None
+        za = float(inputs.get("self.z", 0.0))
+        zb = float(inputs.get("other.z", 0.0)) if inputs.get("kind") == "polygonal" else 0.0
+        tol = float(inputs.get("tolerance", 0))
+        if abs(za - zb) <= tol:
+            return None
+        P = R.PolygonalRegion([(0, 0), (4, 0), (4, 4), (0, 4)], z=za)
+        Q = R.PolygonalRegion([(1, 1), (2, 1), (2, 2), (1, 2)], z=zb) if inputs.get("kind") == "polygonal" else R.PolylineRegion([(1, 1), (2, 2)])
+        if P.containsRegionInner(Q, tol):
+            return f"PolygonalRegion([0,4]^2, z={za}).containsRegionInner({type(Q).__name__} at z={zb}, tolerance={tol}) = True although no point of it is within {tol} of the container"
+        return None
+
+    reg.add(C.Contract(f"{RG}:PolygonalRegion.containsRegionInner", params=dict(self=C.Const(None), other=C.Const(None), tolerance=C.Const(0)), setup=setup_pc, post=post_pc, raises=[C.Raises("TypeError", mode="may")], inline_all=True, replay=replay_pc, properties=("C16",)))
+
+    # ---------------------------------------------------------------- Region.containsRegion (fast paths)
+    def setup_cr(I, env):
+        eng = I.eng
+        inner_calls = []
+        truth = eng.fresh_bool("reg_is_contained_in_self")
+
+        def region(tag, k):
+            if k == 1:
+                return mk_special(I, "AllRegion")
+            if k == 2:
+                return mk_special(I, "EmptyRegion")
+            o = PObj("AbstractRegion", tag=tag)
+            init_samplable(o)
+            dim = None if eng.choose(2, f"{tag}.dimensionality known?") == 0 else eng.fresh_int(f"{tag}.dimensionality")
+            size = None if eng.choose(2, f"{tag}.size known?") == 0 else eng.fresh_real(f"{tag}.size")
+            if dim is not None:
+                eng.assume(sv_and(compare(">=", dim, 0), compare("<=", dim, 3)))
+            if size is not None:
+                eng.assume(compare(">", size, 0))
+            o.fields.update(dimensionality=dim, size=size, name=tag, orientation=None)
+            return o
+
+        A = region("self", eng.choose(3, "self: generic / everywhere / nowhere"))
+        B = region("reg", eng.choose(3, "reg: generic / everywhere / nowhere"))
+        A.fields["containsRegionInner"] = BuiltinFn("containsRegionInner", lambda r, t: (inner_calls.append((r, t)), truth)[1])
+        tol = 0 if eng.choose(2, "tolerance") == 0 else eng.fresh_real("tolerance")
+        if isinstance(tol, SV):
+            eng.assume(compare(">", tol, 0))
+        env.vars.update(self=A, reg=B, tolerance=tol, _truth=truth, _inner=inner_calls)
+
+    def post_cr(I, env, outcome):
+        eng = I.eng
+        oname = "regions.Region.containsRegion"
+        if outcome[0] != "return":
+            return
+        A, B, res, truth, tol = env.vars["self"], env.vars["reg"], outcome[1], env.vars["_truth"], env.vars["tolerance"]
+        a_all, a_emp, b_all, b_emp = is_a(I, A, "AllRegion"), is_a(I, A, "EmptyRegion"), is_a(I, B, "AllRegion"), is_a(I, B, "EmptyRegion")
+        if a_all or b_emp:
+            eng.check(f"{oname}#ensures.everywhere_contains_everything_and_nowhere_is_contained_in_everything", res is True)
+            return
+        if a_emp or b_all:
+            # reg is non-empty (not `nowhere`) / self is not everything
+            eng.check(f"{oname}#ensures.nowhere_contains_nothing_and_only_everywhere_contains_everywhere", res is False)
+            return
+        # measure facts (trusted): a subset has no larger dimension, and at equal dimension no larger size (tolerance 0)
+        da, db, sa, sb = A.fields["dimensionality"], B.fields["dimensionality"], A.fields["size"], B.fields["size"]
+        if da is not None and db is not None:
+            eng.assume(sv_implies(truth, compare(">=", da, db)))
+            if sa is not None and sb is not None and not isinstance(tol, SV):
+                eng.assume(sv_implies(sv_and(truth, compare("==", da, db)), compare(">=", sa, sb)))
+        eng.check(f"{oname}#ensures.agrees_with_containsRegionInner_and_measure_monotonicity", iff(I.truth(res), truth))
+        eng.check(f"{oname}#ensures.inner_test_called_at_most_once_with_the_arguments", len(env.vars["_inner"]) <= 1 and all(c[0] is B and c[1] is tol for c in env.vars["_inner"]))
+
+    reg.trust("measure-monotonicity", "if region B is contained in region A then dim(B) <= dim(A), and size(B) <= size(A) when the dimensions agree (tolerance 0)")
+    reg.add(C.Contract(f"{RG}:Region.containsRegion", params=dict(self=C.Const(None), reg=C.Const(None), tolerance=C.Const(0)), setup=setup_cr, post=post_cr, inline_all=True, properties=("C16",)))
+
+
+# ===================================================================================================
+# bounding boxes
+
+
+def check_box(I, oname, res, member, p):
+    eng = I.eng
+    ok = isinstance(res, tuple) and len(res) == 2 and all(isinstance(c, tuple) and len(c) == 3 for c in res)
+    eng.check(f"{oname}#ensures.returns_two_corners", ok)
+    if ok:
+        lo, hi = res
+        inside = sv_and(*[sv_and(compare("<=", a, v), compare("<=", v, b)) for a, v, b in zip(lo, p, hi)])
+        eng.check(f"{oname}#ensures.every_member_is_inside_the_box", sv_implies(member, inside))
+
+
+def register_aabb(reg):
+    reg.add(
+        C.Contract(
+            f"{GEO}:findMinMax",
+            params=dict(iterable=C.ListOf(C.Real(), (1, 2, 3, 4), as_tuple=True)),
+            ensures={
+                "lower_bound": "all(result[0] <= v for v in old(iterable))",
+                "upper_bound": "all(v <= result[1] for v in old(iterable))",
+                "min_attained": "any(result[0] == v for v in old(iterable))",
+                "max_attained": "any(result[1] == v for v in old(iterable))",
+            },
+            result=lambda I, env: (I.eng.fresh_real("minv"), I.eng.fresh_real("maxv")),
+            bounded=True,
+            note="bounded: 1..4 values (symbolic)",
+            properties=("C16",),
+        )
+    )
+
+    def setup_poly(I, env):
+        A = mk_polygonal(I, "self")
+        with_bounds(I, A.fields["_polygons"])
+        env.vars.update(self=A, _p=probe(I))
+
+    def post_poly(I, env, outcome):
+        if outcome[0] == "return":
+            check_box(I, "regions.PolygonalRegion.AABB", outcome[1], mem3(I, env.vars["self"], env.vars["_p"]), env.vars["_p"])
+
+    reg.add(C.Contract(f"{RG}:PolygonalRegion.AABB", params=dict(self=C.Const(None)), setup=setup_poly, post=post_poly, inline_all=True, properties=("C16",)))
+
+    def setup_line(I, env):
+        A = mk_polyline(I, "self")
+        with_bounds(I, A.fields["lineString"])
+        env.vars.update(self=A, _p=probe(I))
+
+    def post_line(I, env, outcome):
+        if outcome[0] == "return":
+            check_box(I, "regions.PolylineRegion.AABB", outcome[1], mem3(I, env.vars["self"], env.vars["_p"]), env.vars["_p"])
+
+    reg.add(C.Contract(f"{RG}:PolylineRegion.AABB", params=dict(self=C.Const(None)), setup=setup_line, post=post_line, inline_all=True, properties=("C16",)))
+
+    def setup_circ(I, env):
+        env.vars.update(self=mk_circular(I), _p=probe(I))
+
+    def post_circ(I, env, outcome):
+        if outcome[0] == "return":
+            check_box(I, "regions.CircularRegion.AABB", outcome[1], mem3(I, env.vars["self"], env.vars["_p"]), env.vars["_p"])
+
+    reg.add(C.Contract(f"{RG}:CircularRegion.AABB", params=dict(self=C.Const(None)), setup=setup_circ, post=post_circ, inline_all=True, properties=("C16",)))
+
+    def setup_rect(I, env):
+        A, member = mk_rectangular(I)
+        env.vars.update(self=A, _member=member)
+
+    def post_rect(I, env, outcome):
+        if outcome[0] == "return":
+            p, member = env.vars["_member"]
+            check_box(I, "regions.RectangularRegion.AABB", outcome[1], member, p)
+
+    reg.add(C.Contract(f"{RG}:RectangularRegion.AABB", params=dict(self=C.Const(None)), setup=setup_rect, post=post_rect, inline=["Vector.__getitem__", "RectangularRegion.AABB"], properties=("C16",)))
+
+    def setup_mesh(I, env):
+        A = PObj(RC("MeshVolumeRegion"), tag="self")
+        init_samplable(A)
+        mesh = MS.make_mesh(I, "mesh")
+        A.fields.update(mesh=mesh, orientation=None, name=None)
+        env.vars.update(self=A, _p=probe(I), _mesh=mesh)
+
+    def post_mesh(I, env, outcome):
+        if outcome[0] == "return":
+            p = env.vars["_p"]
+            res = outcome[1]
+            if isinstance(res, tuple):
+                res = tuple(tuple(c) if isinstance(c, tuple) else c for c in res)
+            check_box(I, "regions.MeshRegion.AABB", res, env.vars["_mesh"].fields["_mem3"](*p), p)
+
+    reg.add(C.Contract(f"{RG}:MeshRegion.AABB", params=dict(self=C.Const(None)), setup=setup_mesh, post=post_mesh, inline_all=True, properties=("C16",)))
+
+    def setup_ps(I, env):
+        eng = I.eng
+        n = 1 + eng.choose(3, "number of points")
+        pts = [[eng.fresh_real(f"pt{i}.{c}") for c in "xyz"] for i in range(n)]
+        A = PObj(RC("PointSetRegion"), tag="self")
+        init_samplable(A)
+        A.fields.update(points=MS.NDArr((n, 3), pts), orientation=None, name="ps")
+        env.vars.update(self=A, _pts=pts)
+
+    def post_ps(I, env, outcome):
+        if outcome[0] == "return":
+            for i, pt in enumerate(env.vars["_pts"]):
+                check_box(I, "regions.PointSetRegion.AABB", outcome[1], True, pt)
+
+    reg.add(C.Contract(f"{RG}:PointSetRegion.AABB", params=dict(self=C.Const(None)), setup=setup_ps, post=post_ps, inline_all=True, bounded=True, note="bounded: 1..3 points (symbolic coordinates)", properties=("C16",)))
+
+
+def mk_rectangular(I, tag="self"):
+    """A RectangularRegion as its constructor leaves it (position, heading, hw, hl, corners, circumcircle) and a generic
+    member: position + Rot(heading) (rx, ry) with |rx| <= hw, |ry| <= hl, at the height of the position."""
+    eng = I.eng
+    px, py, pz = (eng.fresh_real(f"{tag}.position.{c}") for c in "xyz")
+    h, w, l = eng.fresh_real(f"{tag}.heading"), eng.fresh_real(f"{tag}.width"), eng.fresh_real(f"{tag}.length")
+    eng.assume(sv_and(compare(">", w, 0), compare(">", l, 0)))
+    for n, v in (("position", (px, py, pz)),):
+        eng.input_syms.append((f"{tag}.{n}", C.TupleOf(C.Real(), C.Real(), C.Real()), v))
+    for n, v in (("heading", h), ("width", w), ("length", l)):
+        eng.input_syms.append((f"{tag}.{n}", C.Real(), v))
+    hw, hl = arith("/", w, 2), arith("/", l, 2)
+    c, s = MS.cos(I, h), MS.sin(I, h)
+    rot = lambda x, y: (arith("+", px, arith("-", arith("*", c, x), arith("*", s, y))), arith("+", py, arith("+", arith("*", s, x), arith("*", c, y))), pz)
+    corners = tuple(make_vector(*rot(a, b)) for a, b in ((hw, hl), (arith("-", 0, hw), hl), (arith("-", 0, hw), arith("-", 0, hl)), (hw, arith("-", 0, hl))))
+    g = MS.make_geom(I, "Polygon", empty=False, tag=tag + ".polygons")
+    r = mk_polygonal(I, tag, z=pz, cls="RectangularRegion", polygons=g)
+    pos = make_vector(px, py, pz)
+    r.fields.update(position=pos, heading=h, width=w, length=l, hw=hw, hl=hl, corners=corners)
+    rx, ry = eng.fresh_real("rx"), eng.fresh_real("ry")
+    eng.input_syms.append(("local", C.TupleOf(C.Real(), C.Real()), (rx, ry)))
+    member = sv_and(compare("<=", arith("-", 0, hw), rx), compare("<=", rx, hw), compare("<=", arith("-", 0, hl), ry), compare("<=", ry, hl))
+    return r, (rot(rx, ry), member)
